@@ -726,6 +726,14 @@ func (sc *specCtx) evalCall(x *ast.CallExpr) Value {
 	case "barr":
 		// barr(arr, off, n): the byte sequence arr[off : off+n] of an array term
 		return UF("bsub", SBytes, sc.evalTerm(x.Args[0]), sc.evalTerm(x.Args[1]), sc.evalTerm(x.Args[2]))
+	case "sel":
+		b := Select(sc.evalTerm(x.Args[0]), sc.evalTerm(x.Args[1]))
+		if b.op == OSelect && !sc.st.typed[b.id] {
+			sc.st.typed[b.id] = true
+			sc.st.assume(Le(ConstI(0), b))
+			sc.st.assume(Le(b, ConstI(255)))
+		}
+		return b
 	case "lea":
 		// lea(arr, off, n): little-endian value of n bytes of an array term starting at off
 		arr := sc.evalTerm(x.Args[0])
